@@ -397,6 +397,67 @@ theorem date_word_shift (u : Uni) (ha : u.Ascii) (dcfg : DateCfg) (hmax : dcfg.m
   simp only [mh, nc, false_and, if_false]
   exact dtRes_datetime_plain u _ y mo d _ c.m c.s (by omega) (by omega)
 
+
+/-! ## Today-relative day words: `tonight at 7`, `this morning at 7:30` (`parse_time_of_today`) -/
+
+/-- English hooks with the regenerated numbers table -/
+def enTodCfg (u : Uni) : TodCfg := { numbers := numbers_en, getSwiftDay := enGetSwiftDay u, getHour := enGetHour u }
+
+/-- the slot the time parser hands over for the clock time `c` (what `matchToTime_clock` proves `match_to_time` yields) -/
+def Clock.slot (c : Clock) (ref : DT) : Slot :=
+  toSlot .time (Res.mk true (c.timex c.h) (if 0 < c.h ∧ c.h ≤ 12 then sAmPm else []) ⟨ref.y, ref.m, ref.d, c.h, c.m, c.s⟩
+    ⟨ref.y, ref.m, ref.d, c.h, c.m, c.s⟩)
+
+/-- `<day word> at h[:mm[:ss]]` where the day word (first match of `SpecificTimeOfDayRegex`) has no `next` / `last` and
+does not end in `morning` (tonight, this afternoon, this evening …) and 6 ≤ h < 24: exactly one datetime, the reference
+date with hour `h + 12` for h < 12 and `h` otherwise — the day word settles the am/pm question. -/
+theorem time_of_today_pm_word (u : Uni) (c : Clock) (wf : c.WF u) (ms : Str)
+    (hn : startsWith (strip u.isSpace ms) [110, 101, 120, 116] = false)
+    (hl : startsWith (strip u.isSpace ms) [108, 97, 115, 116] = false)
+    (hm : endsWith (strip u.isSpace ms) [109, 111, 114, 110, 105, 110, 103] = false)
+    (h6 : 6 ≤ c.h) (ref : DT) (hv : ref.date.valid = true) (hy : 1000 ≤ ref.y) :
+    resolveTimeOfToday u (enTodCfg u) (.parsed (c.slot ref)) (some ms) ref =
+      .ok (some [c.dtValue ref.y ref.m ref.d (if c.h < 12 then c.h + 12 else c.h)]) := by
+  have w60 := wf_m60 u c wf
+  have h24 := wf.h24
+  have vr := (valid_iff ref.date).1 hv
+  simp only [DT.date] at vr
+  have hlt : (if c.h < 12 then c.h + 12 else c.h) < 24 := by split <;> omega
+  simp only [resolveTimeOfToday, Clock.slot]
+  rw [parseTimeOfToday_parsed u (enTodCfg u) c w60 c.h h24 _ _ ⟨rfl, rfl, rfl⟩ ms (enGetSwiftDay_plain u ms hn hl) _
+    (enGetHour_pmWord u ms hm c.h h6 h24) hlt ref hv]
+  simp only [bind, Except.bind]
+  exact dtRes_datetime_plain u _ ref.y ref.m ref.d _ c.m c.s (by omega) (by omega)
+
+/-- `this morning at h[:mm[:ss]]`, h < 12: the reference date at `h`, one value. -/
+theorem time_of_today_morning (u : Uni) (c : Clock) (wf : c.WF u) (ms : Str)
+    (hn : startsWith (strip u.isSpace ms) [110, 101, 120, 116] = false)
+    (hl : startsWith (strip u.isSpace ms) [108, 97, 115, 116] = false)
+    (hm : endsWith (strip u.isSpace ms) [109, 111, 114, 110, 105, 110, 103] = true)
+    (h12 : c.h < 12) (ref : DT) (hv : ref.date.valid = true) (hy : 1000 ≤ ref.y) :
+    resolveTimeOfToday u (enTodCfg u) (.parsed (c.slot ref)) (some ms) ref =
+      .ok (some [c.dtValue ref.y ref.m ref.d c.h]) := by
+  have w60 := wf_m60 u c wf
+  have vr := (valid_iff ref.date).1 hv
+  simp only [DT.date] at vr
+  simp only [resolveTimeOfToday, Clock.slot]
+  rw [parseTimeOfToday_parsed u (enTodCfg u) c w60 c.h (by omega) _ _ ⟨rfl, rfl, rfl⟩ ms (enGetSwiftDay_plain u ms hn hl) _
+    (enGetHour_morning u ms hm c.h h12) (by omega) ref hv]
+  simp only [bind, Except.bind]
+  exact dtRes_datetime_plain u _ ref.y ref.m ref.d _ c.m c.s (by omega) (by omega)
+
+/-- `tonight at 7` on the witness reference: 2016-11-07T19; `tonight at 2` stays 02:00 (night rule of `get_hour`). -/
+theorem tonight_examples :
+    (resolveTimeOfToday asciiUni (enTodCfg asciiUni) (.parsed (({ hs := [55], h := 7 } : Clock).slot refWitness))
+        (some [116, 111, 110, 105, 103, 104, 116]) refWitness).toOption =
+      some (some [{ timex := [50, 48, 49, 54, 45, 49, 49, 45, 48, 55, 84, 49, 57], type := sDateTime,
+                    value := some [50, 48, 49, 54, 45, 49, 49, 45, 48, 55, 32, 49, 57, 58, 48, 48, 58, 48, 48] }]) ∧
+    (resolveTimeOfToday asciiUni (enTodCfg asciiUni) (.parsed (clock2.slot refWitness))
+        (some [116, 111, 110, 105, 103, 104, 116]) refWitness).toOption =
+      some (some [{ timex := [50, 48, 49, 54, 45, 49, 49, 45, 48, 55, 84, 48, 50], type := sDateTime,
+                    value := some [50, 48, 49, 54, 45, 49, 49, 45, 48, 55, 32, 48, 50, 58, 48, 48, 58, 48, 48] }]) := by
+  decide +kernel
+
 /-- shape of the TIMEX: `T`, two digits, then `:mm` / `:ss` exactly for the parts that were written -/
 theorem short_time_shape (c : Clock) (hh : Nat) (h : hh < 100) :
     c.timex hh = [84, 48 + hh / 10, 48 + hh % 10] ++ c.tail := by
